@@ -7,8 +7,8 @@
  * Scenario skeleton (order concrete, every argument symbolic):
  *   D1 = rules-define ; S1 = scanner-create ; D2 = rules-define ; S2 = scanner-create ;
  *   D3 = scanner-define on S1 or S2 ; D4 = rules-define ; read a, b through S1 and S2 with the VM.
- * each define: type in {integer, boolean, float}, identifier in {"a","b","c"} ("c" is unknown), value arbitrary.
- * table: a, b with symbolic types among {integer, boolean, float} and symbolic compile-time values.
+ * each define: type in {integer, boolean, float}, identifier ANY string of length 0..3 over {a,b}, value arbitrary.
+ * table: "ab", "a" (one a prefix of the other) with symbolic types among {integer, boolean, float} and symbolic compile-time values.
  * Oracle: 3-level map (scanner value, else rules value at creation, else compile-time value); invalid
  * definitions (unknown identifier / incompatible type) return the documented error and change nothing;
  * defining on one scanner never affects the other scanner nor the rule set.
@@ -28,7 +28,9 @@ static YR_NAMESPACE ns0;
 static YR_RULES rules;
 static YR_BITMASK no_required[1];
 static YR_ARENA rules_arena;
-static char id_a[2] = "a", id_b[2] = "b";
+/* identifiers of the two externals: one is a proper PREFIX of the other, and the symbolic identifiers used in the
+   definitions below include the empty string, proper prefixes and extensions of both */
+static char id_a[3] = "ab", id_b[2] = "a";
 
 /* model */
 typedef struct { int type; uint64_t v; } mval; /* v: raw 64 bits (int or double bits) */
@@ -43,12 +45,14 @@ static int type_compatible_scanner(int ext_type, int def_type)
   return (ei && di) || (ext_type == EXTERNAL_VARIABLE_TYPE_FLOAT && def_type == EXTERNAL_VARIABLE_TYPE_FLOAT);
 }
 
-static void sym_def(int* type, char id[2], uint64_t* val, int* idx)
+static void sym_def(int* type, char id[4], uint64_t* val, int* idx)
 {
   *type = (int) vf_range(EXTERNAL_VARIABLE_TYPE_FLOAT, EXTERNAL_VARIABLE_TYPE_BOOLEAN); /* 1 float 2 integer 3 boolean */
-  *idx = (int) vf_range(0, 2);
-  id[0] = (char) ('a' + *idx);
-  id[1] = 0;
+  /* arbitrary identifier of length 0..3 over {a,b}: "", "a", "b", "ab", "aa", "aba", ... */
+  int len = (int) vf_range(0, 3);
+  for (int i = 0; i < 3; i++) id[i] = i < len ? (char) ('a' + (vf_u8() & 1)) : 0;
+  id[3] = 0;
+  *idx = (len == 2 && id[0] == 'a' && id[1] == 'b') ? 0 : (len == 1 && id[0] == 'a') ? 1 : 2;
   *val = vf_u64();
   if (*type == EXTERNAL_VARIABLE_TYPE_BOOLEAN) *val &= 1;
   if (*type == EXTERNAL_VARIABLE_TYPE_FLOAT)
@@ -60,7 +64,7 @@ static void sym_def(int* type, char id[2], uint64_t* val, int* idx)
 
 static void do_rules_define(void)
 {
-  int type, idx; char id[2]; uint64_t val;
+  int type, idx; char id[4]; uint64_t val;
   sym_def(&type, id, &val, &idx);
   int r;
   double d; memcpy(&d, &val, 8);
@@ -138,7 +142,7 @@ int main(void)
   do_rules_define();
   YR_SCANNER* s2 = do_create(1);
   {
-    int type, idx; char id[2]; uint64_t val;
+    int type, idx; char id[4]; uint64_t val;
     sym_def(&type, id, &val, &idx);
     int k = (int) vf_range(0, 1);
     YR_SCANNER* s = k ? s2 : s1;
